@@ -258,13 +258,16 @@ class Fn(object):
     """
 
     def __init__(self, path, qual, name, params, ret, fuels=(), self_in=None, state_out=None,
-                 externs=None, ignore_calls=()):
+                 externs=None, ignore_calls=(), assume=None):
         self.path, self.qual, self.name, self.params, self.ret = path, qual, name, params, ret
         self.fuels = list(fuels)
         self.self_in = self_in or {}
         self.state_out = state_out or []
         self.externs = externs or {}
         self.ignore_calls = set(ignore_calls)
+        # assume: {source text of a condition: bool} -- conditions decided by the environment, not by the
+        # inputs (e.g. `murmur3 is not None`); each use is an explicit, documented assumption of the spec
+        self.assume = dict(assume or {})
 
 
 PRELUDE = "From Coq Require Import ZArith List Bool.\nFrom Verif Require Import PyBase.\n" \
@@ -757,6 +760,10 @@ class FnTranslator(object):
 
     # -- conditions (boolean context, short-circuit preserved by nesting)
     def cond(self, test, env, kt, kf):
+        if self.fn.assume:
+            src = ast.unparse(test)
+            if src in self.fn.assume:
+                return kt() if self.fn.assume[src] else kf()
         if isinstance(test, ast.BoolOp):
             vals = list(test.values)
             if isinstance(test.op, ast.And):
